@@ -212,6 +212,9 @@ def run_res(c, keys):
         r = x
         for _ in range(c["n"]):
             r = r.add_series(x) if op == "reps" else r.add_parallel(x)
+        o = obs_res(r, keys)
+        o["mul"] = obs_res(x.multiply_series(c["n"] + 1) if op == "reps" else x.multiply_parallel(c["n"] + 1), keys)
+        return o
     return obs_res(r, keys)
 
 
